@@ -113,10 +113,13 @@ Print Assumptions C20_accepted_eq_documented.
 (** The same in every way of running a test case that the inventory probes (`exactly CASE` is the base; `--act`, `--keep`,
     `--suite SUITE CASE`, exactly.suite in the directory of the case, `exactly suite SUITE` listing the case, `exactly symbol
     CASE`): of the names probed in that way (a complete use of every instruction / type / actor keyword / configuration
-    parameter that passes stand-alone; every builtin symbol and perturbations of it) exactly the documented ones are accepted. *)
+    parameter that passes stand-alone; every builtin symbol and perturbations of it) exactly the documented ones are accepted.
+    The "ways" also include the documented optional instruction description in front of the name (same line, tight, and
+    on earlier lines with blank / comment lines between) in every test-case phase and every suite section. *)
 Theorem C20_accepted_in_every_way_of_running :
   (forall p m, In p (inv_phases live) -> In m (pi_modes p) -> mode_ok (pi_help_struct p) m) /\
-  (forall e m, In e (inv_entities live) -> In m (ei_modes e) -> mode_ok (ei_help_struct e) m).
+  (forall e m, In e (inv_entities live) -> In m (ei_modes e) -> mode_ok (ei_help_struct e) m) /\
+  (forall s m, In s (inv_suite_sections live) -> In m (si_modes s) -> mode_ok (suite_documented live s) m).
 Proof. exact live_accepted_in_every_way_of_running. Qed.
 Print Assumptions C20_accepted_in_every_way_of_running.
 
